@@ -56,6 +56,23 @@ def subharnesses(tier):
                         'apps': apps, 'events': events}
                 subs.append(('%s-D%d-A%d-%s-%s' % (topo, D, A, tag,
                                                    g1.ptag(pl)), spec))
+    # an unschedule request that was never served on the server it was made
+    # for (the server went down first / the instance was evicted): it must not
+    # follow the instance to the next server that gets frozen
+    for topo in ('T1', 'T2'):
+        for pl in ((0, None, None), (0, 1, None), (0, 0, None)):
+            for st0 in ('down', 'frozen'):
+                apps = [{'place': j, 'retention': None} for j in pl]
+                apps[0]['unschedule'] = True
+                spec = {'topo': topo, 'D': 1,
+                        'servers': [{'state': st0}, {}], 'apps': apps,
+                        'phases': [[['none']],
+                                   [['server_state', 1, 'frozen']],
+                                   [['server_state', 0, 'up'],
+                                    ['server_state', 1, 'up']],
+                                   [['server_state', 0, 'frozen']]]}
+                subs.append(('%s-D1-A3-stale_unschedule-%s-%s' % (
+                    topo, st0, g1.ptag(pl)), spec))
     return subs + _master_subs(tier)
 
 
@@ -180,9 +197,32 @@ def budget(tier, name):
     return 400.0 if tier == 'quick' else 600.0
 
 
+def _phases(S, spec):
+    """Several cycles with events in between; unschedule requests are kept
+    by the harness and are consumed when the instance leaves the server."""
+    W = g1.build(S, spec)
+    W.marks = {W.apps[i].name for i, ap in enumerate(spec['apps'])
+               if ap.get('unschedule')}
+    marked_on = {n: W.cell.apps[n].server for n in W.marks}
+    for k, events in enumerate(spec['phases']):
+        for ev in events:
+            g1.apply_event(W, tuple(ev))
+        pre = g1.c08_pre(W)
+        placement = W.cell.schedule()
+        g1.c08_oracle(W, pre, placement, ':phase%d' % (k + 1))
+        for n in list(W.marks):
+            app = W.cell.apps.get(n)
+            if app is None or app.server != marked_on[n]:
+                W.marks.discard(n)
+    S.reach('scheduled')
+    S.reach('several_phases')
+
+
 def harness(S, spec):
     if spec.get('level') == 'master':
         return _master_harness(S, spec)
+    if 'phases' in spec:
+        return _phases(S, spec)
     W = g1.build(S, spec)
     for ev in spec['events']:
         g1.apply_event(W, tuple(ev))
@@ -205,5 +245,6 @@ META = {
                        'moved_off_down_server', 'on_frozen_server',
                        'unschedule_on_frozen', 'blacklisted_kept_off',
                        'eviction_put', 'master_level',
-                       'kept_within_retention', 'retention_over'],
+                       'kept_within_retention', 'retention_over',
+                       'several_phases'],
 }
